@@ -271,13 +271,26 @@ def run_subprocess(plan, opt, rng, fmt):
         after, data = file_state(out_path, plan["out"])
         out = p.stdout
         kind = "code" if out.startswith('r"""') else ("message" if out.strip() else "none")
-        lib = ""
+        libs = []
         if p.returncode == 0:
-            lib = lib_text(per_model, opt)
+            # the order inside a pattern is unspecified and not observable from outside: every order of every pattern chunk
+            import itertools
+            order = [a for a in plan["args"] if a["flag"] == "m"] + [a for a in plan["args"] if a["flag"] == "l"]
+            by_id = {s_["sid"]: s_ for ss in per_model.values() for s_ in ss if isinstance(s_, dict)}
+            globs = [a for a in order if a["kind"] == "glob"]
+            for flips in itertools.product([False, True], repeat=len(globs)):
+                pm = {}
+                for a in order:
+                    ids = list(a["ids"])
+                    if a["kind"] == "glob" and flips[globs.index(a)]:
+                        ids.reverse()
+                    if a["kind"] in ("list", "object", "lookup", "glob"):
+                        pm.setdefault(a["model"], []).extend(by_id[i] for i in ids if i in by_id)
+                libs.append(sha(lib_text(pm, opt)))
         code = strip_header(out[:-1]) if kind == "code" else None       # print() appended one newline
         fcode = strip_header(data) if after == "new" else None
         return {"ev": "SubExit", "status": p.returncode, "stdout": kind, "outAfter": after if plan["out"] != "none" else "none",
-                "codeHash": sha(code) if code is not None else "", "libHash": sha(lib), "fileHash": sha(fcode) if fcode is not None else "",
+                "codeHash": sha(code) if code is not None else "", "libHashes": libs, "fileHash": sha(fcode) if fcode is not None else "",
                 "ok": True, "kind": "", "model": ""}
     finally:
         shutil.rmtree(work, ignore_errors=True)
